@@ -4,6 +4,7 @@ Helper lemmas for C20: bit-level characterisation of the Python-int operations o
 minimum of a bit list, `range`, and rounding half to even.  Core Lean only.
 -/
 import CanopenModel.Views
+import CanopenProofs.Lemmas.Bytes
 
 namespace Canopen.Views
 
@@ -262,5 +263,85 @@ theorem inRange_signed_iff (w : Nat) (x : Int) :
     constructor
     · intro h; have := h.1; omega
     · intro h; omega
+
+end Canopen.Views
+
+namespace Canopen.Views
+open Canopen
+
+/-! ### two's complement patterns (repaired `encode_bits` on signed types) -/
+
+/-- the `w`-bit two's complement pattern of any Python int: its low `w` bits -/
+theorem testBit_ofSigned (w : Nat) (x : Int) (i : Nat) :
+    (ofSigned w x).testBit i = (decide (i < w) && tbit x i) := by
+  unfold ofSigned
+  cases x with
+  | ofNat n =>
+    have : (Int.ofNat n % ((2 ^ w : Nat) : Int)).toNat = n % 2 ^ w := by
+      rw [Int.ofNat_eq_natCast, ← Int.natCast_emod, Int.toNat_natCast]
+    rw [this, Nat.testBit_mod_two_pow]; rfl
+  | negSucc n =>
+    have hpos : (0 : Int) < ((2 ^ w : Nat) : Int) := Int.natCast_pos.mpr (Nat.pow_pos (by decide))
+    have hm : n % 2 ^ w < 2 ^ w := Nat.mod_lt _ (Nat.pow_pos (by decide))
+    have : (Int.negSucc n % ((2 ^ w : Nat) : Int)).toNat = 2 ^ w - (n % 2 ^ w + 1) := by
+      rw [Int.negSucc_emod n hpos, ← Int.natCast_emod]
+      omega
+    rw [this, Nat.testBit_two_pow_sub_succ hm, Nat.testBit_mod_two_pow]
+    simp only [tbit]
+    cases decide (i < w) <;> simp
+
+theorem toPattern_some (n : Nat) (x : Int) : toPattern (some n) x = ((ofSigned n x : Nat) : Int) := by
+  apply tbit_ext
+  intro i
+  simp only [toPattern, tbit_pyAnd, tbit_natCast, Nat.testBit_two_pow_sub_one, testBit_ofSigned]
+  rw [Bool.and_comm]
+
+theorem fromPattern_lt (n : Nat) (hn : 0 < n) (p : Nat) (hp : p < 2 ^ n) :
+    fromPattern (some n) (p : Int) = toSigned n p := by
+  have h2 : 2 ^ n = 2 * 2 ^ (n - 1) := two_pow_pred n hn
+  have hpos : 0 < 2 ^ (n - 1) := Nat.pow_pos (by decide)
+  simp only [fromPattern, toSigned]
+  have hs : pyShr (p : Int) (n - 1) = ((p / 2 ^ (n - 1) : Nat) : Int) := by
+    show Int.ofNat (p >>> (n - 1)) = _
+    rw [Nat.shiftRight_eq_div_pow]; rfl
+  rw [hs]
+  by_cases hlt : p < 2 ^ (n - 1)
+  · have : p / 2 ^ (n - 1) = 0 := Nat.div_eq_of_lt hlt
+    simp [this, hlt]
+  · have : p / 2 ^ (n - 1) = 1 := by
+      rw [Nat.div_eq_iff hpos]; omega
+    simp [this, hlt]
+
+theorem fromPattern_ge (n : Nat) (hn : 0 < n) (p : Nat) (hp : 2 ^ n ≤ p) :
+    fromPattern (some n) (p : Int) = (p : Int) := by
+  have h2 : 2 ^ n = 2 * 2 ^ (n - 1) := two_pow_pred n hn
+  have hpos : 0 < 2 ^ (n - 1) := Nat.pow_pos (by decide)
+  simp only [fromPattern]
+  have hs : pyShr (p : Int) (n - 1) = ((p / 2 ^ (n - 1) : Nat) : Int) := by
+    show Int.ofNat (p >>> (n - 1)) = _
+    rw [Nat.shiftRight_eq_div_pow]; rfl
+  rw [hs]
+  have : 2 ≤ p / 2 ^ (n - 1) := by
+    rw [Nat.le_div_iff_mul_le hpos]; omega
+  have hne : ¬ (((p / 2 ^ (n - 1) : Nat) : Int) = 1) := by omega
+  rw [if_neg hne]
+
+/-- a value in a signed range is negative exactly when bit `w-1` of it is set -/
+theorem neg_iff_tbit (w : Nat) (x : Int) (h : inRange w true x = true) :
+    x < 0 ↔ tbit x (w - 1) = true := by
+  simp only [inRange, if_true, Bool.and_eq_true, decide_eq_true_eq] at h
+  cases x with
+  | ofNat n =>
+    have : n < 2 ^ (w - 1) := by have := h.2; simp only [Int.ofNat_eq_natCast] at this; omega
+    simp only [tbit, Nat.testBit_lt_two_pow this]
+    constructor
+    · intro h0; simp only [Int.ofNat_eq_natCast] at h0; omega
+    · intro h0; cases h0
+  | negSucc n =>
+    have : n < 2 ^ (w - 1) := by have := h.1; omega
+    simp only [tbit, Nat.testBit_lt_two_pow this]
+    constructor
+    · intro _; rfl
+    · intro _; exact Int.negSucc_lt_zero n
 
 end Canopen.Views
